@@ -12,8 +12,10 @@
    * `<`, `>` are read off Bcompare (Bits.b32_compare): Some Lt / Some Gt (an
      unordered comparison, None, is false as in C);
    * 0.15f and 0.05f are the binary32 values with the bit patterns 0x3E19999A and
-     0x3D4CCCCD (what the compiler emits for the literals; the driver prints
-     the bits of the C constants on every run). *)
+     0x3D4CCCCD: the binary32 values nearest to 15/100 and 5/100
+     (AdaptiveFloatProofs.afl_015_rounded / afl_005_rounded), which is what a
+     correctly rounding compiler emits for the literals (gcc 0x3e19999a,
+     0x3d4ccccd). *)
 From Flocq Require Import Core Binary Bits.
 From Coq Require Import ZArith NArith.
 
